@@ -74,26 +74,23 @@ def scenarios(thorough=False):
 EVENTS_FIRST = "events-first"     # after the restart every ready event message is delivered before any timer runs
 
 
-def visit_occurrence(s, correlation_id):
-    """how many events for the same state at the same place of the execution tree (same machine, state name, branch indexes)
-    the engine had published before the event `correlation_id`: which visit of that state it is"""
-    st = s.__dict__.setdefault("_visit_index", {"pos": 0, "seen": {}, "occ": {}})
+def visit_attempt(s, correlation_id):
+    """which attempt the Task event `correlation_id` is: the RetryCount it carries plus those of the Parallel / Map states
+    around it (kept in the Branch frames of its context)"""
+    st = s.__dict__.setdefault("_visit_index", {"pos": 0, "att": {}})
     log = s.broker.log
     while st["pos"] < len(log):
         fr = log[st["pos"]]
         st["pos"] += 1
         if fr["op"] == "publish" and str(fr.get("routing_key", "")).startswith("asl_workflow_events"):
             try:
-                ctx = json.loads(fr["body"].decode("utf8")).get("context") or {}
+                state = (json.loads(fr["body"].decode("utf8")).get("context") or {}).get("State") or {}
             except Exception:
                 continue
-            state = ctx.get("State") or {}
-            key = ((ctx.get("StateMachine") or {}).get("Id"), state.get("Name"),
-                   tuple(f.get("Index") for f in (state.get("Branch") or [])))
-            k = st["seen"].get(key, 0)
-            st["seen"][key] = k + 1
-            st["occ"][(fr.get("props") or {}).get("message_id")] = k
-    return st["occ"].get(correlation_id)
+            n = lambda x: x if isinstance(x, int) and not isinstance(x, bool) else 0
+            st["att"][(fr.get("props") or {}).get("message_id")] = \
+                n(state.get("RetryCount")) + sum(n(f.get("RetryCount")) for f in (state.get("Branch") or []) if isinstance(f, dict))
+    return st["att"].get(correlation_id)
 
 
 def start(scn, share_stores):
@@ -106,10 +103,10 @@ def start(scn, share_stores):
         base = pl.worker(fn)
 
         def plan(n, payload, _fn=fn, _base=base):
-            # which of its planned outcomes a worker gives depends on which visit of the state asks (the k-th event published
-            # for that state at that place of the execution), not on how many requests happened to reach it before: a
-            # request a crash keeps from being sent does not change what the others are answered
-            k = visit_occurrence(s, s.rpc_requests[-1]["correlation_id"]) if s.rpc_requests else None
+            # which of its planned outcomes a worker gives depends on which attempt asks (first try, first retry … of the state
+            # or of the fan-out states around it), not on how many requests happened to reach it before: a request a crash
+            # keeps from being sent does not change what the others are answered, and a duplicate is answered like the original
+            k = visit_attempt(s, s.rpc_requests[-1]["correlation_id"]) if s.rpc_requests else None
             if k is not None:
                 pl.seen[(_fn, enginerun.canon_payload(payload))] = k
             r = _base(n, payload)
@@ -365,8 +362,8 @@ class ModelSide(object):
 
 
 def request_bag(s):
-    """the requests the workers received: (queue, canonical payload), sorted"""
-    return sorted((q["queue"], enginerun.canon_payload(q["payload"])) for q in s.rpc_requests)
+    """the requests the workers received: (queue, canonical payload — engine-generated Cause texts masked), sorted"""
+    return sorted((q["queue"], enginerun.canon_payload(enginerun.mask_cause(q["payload"]))) for q in s.rpc_requests)
 
 
 def after_restart(s, lab, mode):
@@ -393,7 +390,7 @@ def crash_between(scn, share, prefix, mode=None):
     lab.do(("crash", 0))
     s.do(("restart", 0))
     after_restart(s, lab, mode)
-    finish(s, ea)
+    finish(s, ea, do=lab.do)
     return s, ea, lab
 
 
@@ -457,18 +454,18 @@ def run(chk):
                     elif len(terms) != 1:
                         problem = ("impl-violates-law", {"terminal_notifications": terms}, None,
                                    "exactly one terminal notification also across a restart between handlers")
-                    elif request_bag(s) != ref_bag:
+                    elif any(request_bag(s).count(x) > ref_bag.count(x) for x in set(request_bag(s))):
+                        # (a request that is never sent while the outcome stays the same is no concern of the property)
                         bag = request_bag(s)
                         problem = ("impl-violates-law",
-                                   {"extra_requests": [x for x in set(bag) if bag.count(x) > ref_bag.count(x)],
-                                    "missing_requests": [x for x in set(ref_bag) if ref_bag.count(x) > bag.count(x)],
+                                   {"extra_requests": sorted(x for x in set(bag) if bag.count(x) > ref_bag.count(x)),
                                     "requests": len(bag)}, {"requests": len(ref_bag)},
-                                   "with the same outcome, the requests the workers receive (queue and payload, with multiplicity) "
-                                   "are those of the crash-free run: no task is requested again under another correlation id")
+                                   "with the same outcome, the workers receive no request (queue and payload, with multiplicity) "
+                                   "beyond those of the crash-free run: no task is requested again under another correlation id")
                     if not s.errors:
                         if detail is None and fv.get("status") not in ("SUCCEEDED", "FAILED"):
                             detail = stuck_detail(s, fv)
-                        side.add(case, True, skel, lab.schedule() if skel is not None else None,
+                        side.add(case, True, skel, lab.schedule(ea) if skel is not None else None,
                                  cm.engine_observation(s, ea, fv, terms, reqs, detail), problem)
                     if len(chk.cov["samples"]) < 3 and i == term_at // 2:
                         chk.sample({"scenario": scn.name, "store": store, "crash_after_step": i, "final": fv, "reference": ref})
@@ -501,11 +498,7 @@ def run(chk):
                         st = s.canonical_step()
                         if st is None:
                             break
-                        # the handler invocations up to the last crash are the schedule the model is given
-                        if len(s.crashes) < crashes_wanted:
-                            lab.do(st)
-                        else:
-                            s.do(st)
+                        lab.do(st)
                     fv, reqs, terms = observe(s, ea)
                     n_mid += 1
                     case = {"scenario": scn.name, "machine": scn.machine, "input": scn.data, "plans": scn.plans, "store": store,
@@ -524,8 +517,8 @@ def run(chk):
                         problem = ("impl-violates-law", fv, ref,
                                    "the terminal status is that of the crash-free run (duplicates of non-terminal effects are allowed)")
                     if not s.errors:
-                        sched = lab.schedule() if skel is not None else None
-                        side.add(case, False, skel, cm.upto_last_crash(sched) if sched is not None else None,
+                        sched = lab.schedule(ea) if skel is not None else None
+                        side.add(case, False, skel, sched,
                                  cm.engine_observation(s, ea, fv, terms, reqs, detail), problem)
                     s.close()
     side.settle()
@@ -540,7 +533,7 @@ def run(chk):
                        "schedule: ready event messages before timers) and every%s crash point after an individual "
                        "publish/ack of the engine connection (terminal status still reached and equal)%s; restart = new engine objects, "
                        "same instance id, broker redelivers what was unacknowledged; a worker's planned outcomes are indexed by which "
-                       "visit of the state asks; distinct = distinct (scenario, store, crash point, restart schedule); "
+                       "attempt (RetryCount of the state and of the fan-out states around it) asks; distinct = distinct (scenario, store, crash point, restart schedule); "
                        "every crash run is also given to the crash protocol model (lean/AslModel/Crash.lean): the skeleton of the "
                        "execution from the events the crash-free run published (Task visits with their RetryCount, child executions, "
                        "failing visits with the enclosing state that handles them decided from the definition and the continuation "
@@ -573,7 +566,7 @@ def replay(chk, path):
     cr = c["crash"]
     if cr["kind"] == "between-handlers":
         s, ea, lab = crash_between(scn, share, cr["prefix"], cr.get("after_restart"))
-        sched = lab.schedule()
+        sched = lab.schedule(ea)
     else:
         # (the first crash only: a second one, `second`, is part of the run of the check, not of this replay)
         s, ea = start(scn, share)
@@ -584,9 +577,8 @@ def replay(chk, path):
             if st is None:
                 break
             lab.do(st)
-        sched = lab.schedule()
-        sched = cm.upto_last_crash(sched) if sched is not None else None
-        finish(s, ea)
+        finish(s, ea, do=lab.do)
+        sched = lab.schedule(ea)
     if skel is not None and sched is not None:
         chk.lean_stage()
         opened = sorted(set(switch_of(f) for f in chk.open_findings if switch_of(f)))
